@@ -23,9 +23,15 @@
 // in the oracle calls the SMT.
 //
 // VerifyProof opens an in-memory pebble instance per call and never closes it (≈0.2 MB and four
-// goroutines leak per call), so the work is cut into jobs of a few thousand calls and every job
-// runs in a fresh sequential child process. A per-call watchdog (process CPU time) turns a call
-// that does not return into a reported violation; the job is then continued after that case.
+// goroutines leak per call), so the work is cut into jobs of about a thousand calls and every job
+// runs in a fresh sequential child process (GOMAXPROCS=1). A per-call watchdog (process CPU time)
+// turns a call that does not return into a reported violation; the job is then continued after that
+// case (see hangCap for the budget rule). When the soft deadline passes no new job is started and
+// children still running after a grace period are killed; their cases are not counted.
+//
+// Nothing in /repo is needed or touched: small trees are committed through the exported SMT.Commit
+// (see commitOps in worlds.go). Case numbering is deterministic, so a replay artefact names
+// (world, config, phase, unit, case) and `-replay` re-runs exactly that call five times.
 package main
 
 import (
@@ -623,7 +629,12 @@ func serveWorker() {
 // ---------------------------------------------------------------------------------------
 // parent side: a pool of one-job child processes with continuation after a hang
 
-const hangCap = 1 // a hang class is evaluated until it has hung this many times, then skipped (and counted)
+// Budget rule for calls that do not return (each costs cpuLimit and the child process): cases are
+// grouped by (malformation incl. the node it touches, where the claimed key's leaf lies relative to
+// the presented proof, key of the proof node it falls under). A group is evaluated until one of its
+// cases has hung hangCap times; the remaining cases of the group are then not evaluated and are
+// counted in skipped_in_capped_hang_class. Nothing is skipped unless a hang was observed and reported.
+const hangCap = 1
 
 type pool struct {
 	mu       sync.Mutex
@@ -814,12 +825,12 @@ func plan(quick bool) (jobs []Job, bounds map[string]any) {
 		hist = 2
 	}
 	// 1. completeness + honest proofs for other keys, every world
-	jobs = append(jobs, chunk("store", "", "sound", allStore, 9, Job{})...)
-	jobs = append(jobs, chunk("smt", "w3", "sound", smtUnits("w3"), 40, Job{Histories: 2})...)
-	jobs = append(jobs, chunk("smt", "w6", "sound", smtUnits("w6"), 30, Job{Histories: hist})...)
+	jobs = append(jobs, chunk("store", "", "sound", allStore, 5, Job{})...)
+	jobs = append(jobs, chunk("smt", "w3", "sound", smtUnits("w3"), 20, Job{Histories: 2})...)
+	jobs = append(jobs, chunk("smt", "w6", "sound", smtUnits("w6"), 15, Job{Histories: hist})...)
 	bounds["sound"] = "store: 5 versions x 27 keys, every distinct proof (live, read-only) x 27 claim keys x 4 claim forms; smt w3 (all 32 trees, both histories), w6 (all 64 subsets of 6 keys + 4 never-present keys)"
 	if !quick {
-		jobs = append(jobs, chunk("smt", "w4", "sound", smtUnits("w4"), 30, Job{Histories: 2})...)
+		jobs = append(jobs, chunk("smt", "w4", "sound", smtUnits("w4"), 15, Job{Histories: 2})...)
 		bounds["sound"] = bounds["sound"].(string) + ", w4 (all 256 subsets of 8 keys + 2 never-present, both histories)"
 	}
 	// 2. structural malformations
@@ -830,14 +841,14 @@ func plan(quick bool) (jobs []Job, bounds map[string]any) {
 			units = append(units, 2*nk+su.idx[n])
 		}
 		sort.Ints(units)
-		jobs = append(jobs, chunk("store", "", "struct", units, 1, Job{MutMod: 6})...)
-		jobs = append(jobs, chunk("smt", "w3", "struct", smtUnits("w3"), 2, Job{Histories: 1})...)
-		jobs = append(jobs, chunk("smt", "w6s", "struct", smtUnits("w6s"), 1, Job{Histories: 1})...)
+		jobs = append(jobs, chunk("store", "", "struct", units, 1, Job{MutMod: 12})...)
+		jobs = append(jobs, chunk("smt", "w3", "struct", smtUnits("w3"), 1, Job{Histories: 1})...)
+		jobs = append(jobs, chunk("smt", "w6s", "struct", smtUnits("w6s"), 1, Job{Histories: 1, MutMod: 2})...)
 		bounds["struct"] = "store: version 3 x 8 keys (one per key class) x every structural malformation x 27 claim keys x 4 forms; smt w3 (all 32 trees x 5 keys), w6s (16 subsets of 4 keys + 2 never-present)"
 	} else {
-		jobs = append(jobs, chunk("store", "", "struct", allStore, 1, Job{MutMod: 6})...)
-		jobs = append(jobs, chunk("smt", "w3", "struct", smtUnits("w3"), 2, Job{Histories: 2})...)
-		jobs = append(jobs, chunk("smt", "w6", "struct", smtUnits("w6"), 1, Job{Histories: 1, MutMod: 2})...)
+		jobs = append(jobs, chunk("store", "", "struct", allStore, 1, Job{MutMod: 12})...)
+		jobs = append(jobs, chunk("smt", "w3", "struct", smtUnits("w3"), 1, Job{Histories: 2})...)
+		jobs = append(jobs, chunk("smt", "w6", "struct", smtUnits("w6"), 1, Job{Histories: 1, MutMod: 4})...)
 		bounds["struct"] = "store: 5 versions x 27 keys x every structural malformation x 27 claim keys x 4 forms; smt w3, w6 complete"
 	}
 	// 3. single-bit flips
@@ -847,14 +858,45 @@ func plan(quick bool) (jobs []Job, bounds map[string]any) {
 			units = append(units, 2*nk+su.idx[n])
 		}
 		sort.Ints(units)
-		jobs = append(jobs, chunk("store", "", "flip", units, 1, Job{})...)
-		jobs = append(jobs, chunk("smt", "w3", "flip", smtUnits("w3"), 8, Job{Histories: 1})...)
+		jobs = append(jobs, chunk("store", "", "flip", units, 1, Job{MutMod: 2})...)
+		jobs = append(jobs, chunk("smt", "w3", "flip", smtUnits("w3"), 4, Job{Histories: 1})...)
 		bounds["flip"] = "every key bit and the first and last value byte of every proof node: store version 3 x 4 keys; smt w3 complete; claims (A, own value, member) and (A, non-member)"
 	} else {
-		jobs = append(jobs, chunk("store", "", "flip", allStore, 1, Job{AllBits: true, MutMod: 3})...)
-		jobs = append(jobs, chunk("smt", "w3", "flip", smtUnits("w3"), 1, Job{Histories: 1, AllBits: true})...)
-		jobs = append(jobs, chunk("smt", "w6", "flip", smtUnits("w6"), 1, Job{Histories: 1, AllBits: true, MutMod: 2})...)
+		jobs = append(jobs, chunk("store", "", "flip", allStore, 1, Job{AllBits: true, MutMod: 6})...)
+		jobs = append(jobs, chunk("smt", "w3", "flip", smtUnits("w3"), 1, Job{Histories: 1, AllBits: true, MutMod: 2})...)
+		jobs = append(jobs, chunk("smt", "w6", "flip", smtUnits("w6"), 1, Job{Histories: 1, AllBits: true, MutMod: 3})...)
 		bounds["flip"] = "every bit of every key and value byte of every proof node: store 5 versions x 27 keys; smt w3, w6 complete; claims (A, own value, member) and (A, non-member)"
+	}
+	jobs = interleave(jobs)
+	return
+}
+
+// interleave orders the jobs so that a run cut by the deadline has seen a bit of every part:
+// all "sound" jobs first, then the others, round-robin over (world, config, phase) within each group.
+func interleave(jobs []Job) (out []Job) {
+	for _, wantSound := range []bool{true, false} {
+		var order []string
+		groups := map[string][]Job{}
+		for _, j := range jobs {
+			if (j.Phase == "sound") != wantSound {
+				continue
+			}
+			k := j.World + "/" + j.Cfg + "/" + j.Phase
+			if _, ok := groups[k]; !ok {
+				order = append(order, k)
+			}
+			groups[k] = append(groups[k], j)
+		}
+		for more := true; more; {
+			more = false
+			for _, k := range order {
+				if len(groups[k]) > 0 {
+					out = append(out, groups[k][0])
+					groups[k] = groups[k][1:]
+					more = true
+				}
+			}
+		}
 	}
 	return
 }
